@@ -11,11 +11,16 @@ From Shovel Require Import Model.TaskTypes Model.TaskDb Model.Task Model.TaskNod
 Import ListNotations.
 Open Scope N_scope.
 
+(* Single-task statements: [Forall unforced s] -- no element of the script
+   forces a dependency reading, i.e. every reading is what the committed
+   database says (in a single-task run: the database of the step's Begin).
+   The interleaved system is [system_dep_bounded] below. *)
+
 (* whenever a dependent step commits a batch, EVERY referenced integration
    had, in the committed database the step read, a cursor at or beyond every
    block of that batch *)
 Theorem dep_target_bounded : forall c, cfg_ok c -> forall d s,
-  TaskInv c d -> trace_sat reply_ok (step c s d) -> t_deps c <> [] ->
+  TaskInv c d -> Forall unforced s -> trace_sat reply_ok (step c s d) -> t_deps c <> [] ->
   r_out (step c s d) = Fin OConverged ->
   exists p q bs dn dh,
     pv c d = render c (p ++ q) /\ pv c (r_db (step c s d)) = render c (p ++ [bs]) /\ bs <> []
@@ -30,7 +35,7 @@ Print Assumptions dep_target_bounded.
    all (every committed state of its trace is the initial one) and cannot
    report success *)
 Theorem dep_all_started : forall c, cfg_ok c -> forall d s,
-  TaskInv c d -> trace_sat reply_ok (step c s d) ->
+  TaskInv c d -> Forall unforced s -> trace_sat reply_ok (step c s d) ->
   forall R, In R (t_deps c) -> newest (t_src c) R (d_curs d) = None ->
   Forall (fun e => snd e = d) (r_trace (step c s d))
   /\ r_db (step c s d) = d
